@@ -31,8 +31,14 @@ def shuffle_class_maps(rng, spec, doc, t):
     if doc[0] == 'm' and k == 'cls' and by[t[1]]['kind'] == 'plain':
         pairs = list(doc[1])
         keys = [p[0][1] if p[0][0] == 's' else None for p in pairs]
-        if len(set(keys)) == len(keys):       # distinct keys: order carries no meaning
+        if len(set(keys)) == len(keys):       # distinct keys: order carries no meaning ...
+            pnames = {p['name'] for c in spec for p in c.get('params', [])}
+            pnames |= {n.replace('_', '-') for n in pnames}
+            others = [p for p in pairs if p[0][0] != 's' or p[0][1] not in pnames]
             rng.shuffle(pairs)
+            # ... except among extra attributes, which arrive as an *ordered* mapping
+            it = iter(others)
+            pairs = [next(it) if (p[0][0] != 's' or p[0][1] not in pnames) else p for p in pairs]
         # recurse into attribute values where the key names a parameter of some class in the hierarchy
         ptypes = {}
         for c in spec:
@@ -139,13 +145,26 @@ def explore(ctx):
     yaml, yatiml = L.setup()
     rng = ctx.rng
     cases = []
-    for c in LC.gen_cases(ctx, ctx.budget(300, 7000), mutate_p=0.3, prop='C13'):
+    for c in LC.gen_cases(ctx, ctx.budget(600, 9000), mutate_p=0.3, prop='C13'):
+        if c.doc is not None and rng.random() < 0.3:
+            # application tags on scalars (they are stripped under Any / untyped / extra positions)
+            doc = c.doc
+            sc = [p for p in G.all_paths(doc) if G.get_at_path(doc, p)[0] == 's']
+            for p in rng.sample(sc, min(len(sc), rng.randint(1, 2))):
+                tag = rng.choice(['!Celsius', '!Unknown', '!Unrelated'])
+                doc = G.replace_at(doc, p, lambda d: G.with_tag(d, tag))
+            try:
+                c2 = L.build_case(rng, yaml, yatiml, c.spec, c.doc_type, doc, ('apptags',))
+                L.run_case(c2, yaml)
+                c = c2
+            except Exception:  # noqa
+                pass
         cases.append(c)
         LC.record_distribution(ctx, c)
         base = base_outcome(c)
         if base[0] == 'other':
             continue
-        which = rng.sample(['keys', 'style', 'unrelated', 'kinds', 'boolfix'], 3)
+        which = rng.sample(['keys', 'style', 'style', 'unrelated', 'kinds', 'boolfix'], 3)
         for tr in which:
             text2, spec2, t2 = c.text, c.spec, c.doc_type
             extra_cls = []
@@ -200,7 +219,6 @@ def explore(ctx):
 
 
 def search(ctx, broken):
-    ctx.tier = 'thorough'
     explore(ctx)
 
 
